@@ -44,7 +44,7 @@ from modelx.core.space import (
     SpaceView,
     RefDict
 )
-from modelx.core.formula import NULL_FORMULA, Formula
+from modelx.core.formula import NULL_FORMULA, NullFormula, Formula
 from modelx.core.util import is_valid_name, AutoNamer
 from modelx.core.chainmap import CustomChainMap
 
@@ -1513,6 +1513,9 @@ class SpaceManager(SharedSpaceOperations):
         if not isinstance(func, Formula):
             # Raise errors before clearing the values
             func = Formula(func, name=cells.name)
+        if not isinstance(func, NullFormula):
+            # on_set_property creates the formula of each cells from func
+            func.__class__(func, name=cells.name)
         self.set_cells_property(cells, UserCellsImpl.PROP_FORMULA, func, True)
 
     def set_cache(self, cells, enable_cache):
